@@ -432,6 +432,85 @@ pub fn extremes() -> Vec<(&'static str, Vec<Vec<u8>>)> {
         d.extend((0..n).map(|i| (i % 145) as u8));
         out.push(("v9-65511-one-byte-records", vec![t.wire(), d]));
     }
+    // values whose re-export is larger than their wire form (listed lossy classes), at the largest
+    // sizes a datagram allows: the consumer pipeline must still return (Ok or Err), never panic
+    {
+        let ix_hdr = |len: usize| {
+            let mut d = vec![];
+            p16(&mut d, 10);
+            p16(&mut d, len as u16);
+            p32(&mut d, 1);
+            p32(&mut d, 2);
+            p32(&mut d, 1);
+            d
+        };
+        let v9_hdr = || {
+            let mut d = vec![];
+            p16(&mut d, 9);
+            p16(&mut d, 1);
+            p32(&mut d, 1);
+            p32(&mut d, 1);
+            p32(&mut d, 2);
+            p32(&mut d, 1);
+            d
+        };
+        // one fixed-length string field of 60000 invalid-UTF-8 bytes (IPFIX interfaceName 82, V9 IF_NAME 82)
+        let t = IpfixMsg { export_time: 1, seq: 1, domain: 1, sets: vec![IpfixSet::Template { records: vec![IpfixTmpl { id: 256, fields: vec![IpfixSpec { type_num: 82, len: 60000, enterprise: None }] }], padding: vec![] }] };
+        let mut d = ix_hdr(16 + 4 + 60000);
+        p16(&mut d, 256);
+        p16(&mut d, 60004);
+        d.extend(vec![0xffu8; 60000]);
+        out.push(("ipfix-string-60000-invalid-utf8", vec![t.wire(), d]));
+        let t = V9Pkt { count: 1, sys_up_time: 1, unix_secs: 1, seq: 1, source_id: 1, flowsets: vec![V9FlowSet::Template { templates: vec![V9Tmpl { id: 256, fields: vec![(82, 60000)] }], padding: vec![] }] };
+        let mut d = v9_hdr();
+        p16(&mut d, 256);
+        p16(&mut d, 60004);
+        d.extend(vec![0xffu8; 60000]);
+        out.push(("v9-string-60000-invalid-utf8", vec![t.wire(), d]));
+        // 900 records of a 64-byte invalid-UTF-8 string
+        let t = IpfixMsg { export_time: 1, seq: 1, domain: 1, sets: vec![IpfixSet::Template { records: vec![IpfixTmpl { id: 256, fields: vec![IpfixSpec { type_num: 82, len: 64, enterprise: None }] }], padding: vec![] }] };
+        let mut d = ix_hdr(16 + 4 + 64 * 900);
+        p16(&mut d, 256);
+        p16(&mut d, (4 + 64 * 900) as u16);
+        d.extend(vec![0xfeu8; 64 * 900]);
+        out.push(("ipfix-900-invalid-utf8-strings", vec![t.wire(), d]));
+        // variable-length string, long form, 60000 invalid bytes
+        let t = IpfixMsg { export_time: 1, seq: 1, domain: 1, sets: vec![IpfixSet::Template { records: vec![IpfixTmpl { id: 256, fields: vec![IpfixSpec { type_num: 82, len: 65535, enterprise: None }] }], padding: vec![] }] };
+        let mut d = ix_hdr(16 + 4 + 3 + 60000);
+        p16(&mut d, 256);
+        p16(&mut d, (4 + 3 + 60000) as u16);
+        d.push(255);
+        p16(&mut d, 60000);
+        d.extend(vec![0xc0u8; 60000]);
+        out.push(("ipfix-varlen-string-60000-invalid-utf8", vec![t.wire(), d]));
+        // 10000 MAC addresses (6 bytes on the wire, 17 as re-exported text)
+        let t = IpfixMsg { export_time: 1, seq: 1, domain: 1, sets: vec![IpfixSet::Template { records: vec![IpfixTmpl { id: 256, fields: vec![IpfixSpec { type_num: 56, len: 6, enterprise: None }] }], padding: vec![] }] };
+        let mut d = ix_hdr(16 + 4 + 60000);
+        p16(&mut d, 256);
+        p16(&mut d, 60004);
+        d.extend((0..60000).map(|i| (i * 7) as u8));
+        out.push(("ipfix-10000-mac-addresses", vec![t.wire(), d]));
+        let t = V9Pkt { count: 1, sys_up_time: 1, unix_secs: 1, seq: 1, source_id: 1, flowsets: vec![V9FlowSet::Template { templates: vec![V9Tmpl { id: 256, fields: vec![(56, 6)] }], padding: vec![] }] };
+        let mut d = v9_hdr();
+        p16(&mut d, 256);
+        p16(&mut d, 60004);
+        d.extend((0..60000).map(|i| (i * 7) as u8));
+        out.push(("v9-10000-mac-addresses", vec![t.wire(), d]));
+        // 7500 8-byte durations (flowStartMilliseconds 152) with all bits set
+        let t = IpfixMsg { export_time: 1, seq: 1, domain: 1, sets: vec![IpfixSet::Template { records: vec![IpfixTmpl { id: 256, fields: vec![IpfixSpec { type_num: 152, len: 8, enterprise: None }] }], padding: vec![] }] };
+        let mut d = ix_hdr(16 + 4 + 60000);
+        p16(&mut d, 256);
+        p16(&mut d, 60004);
+        d.extend(vec![0xffu8; 60000]);
+        out.push(("ipfix-7500-max-durations", vec![t.wire(), d]));
+        // 15000 4-byte V9 durations (LAST_SWITCHED 21, FIRST_SWITCHED 22)
+        let t = V9Pkt { count: 1, sys_up_time: 1, unix_secs: 1, seq: 1, source_id: 1, flowsets: vec![V9FlowSet::Template { templates: vec![V9Tmpl { id: 256, fields: vec![(21, 4), (22, 4)] }], padding: vec![] }] };
+        let mut d = v9_hdr();
+        p16(&mut d, 256);
+        p16(&mut d, 60004);
+        d.extend(vec![0xffu8; 60000]);
+        out.push(("v9-7500-max-switched-times", vec![t.wire(), d]));
+    }
     // 4095 chained 16-byte IPFIX messages
     {
         let mut d = vec![];
